@@ -1,0 +1,20 @@
+//go:build verif
+// +build verif
+
+package graph
+
+//VerifCanonTracer, when it is not nil, receives the events of the canonical labelling search for the verification harness in /verif (build tag verif only). The slices must not be kept or modified.
+//Events: "node" (a = len(path), b = 1 if the refinement reported a worse branch, s = order, t = binDividers), "leaf" (a = len(path), s = order, t = value), "jump" (a = the length the path is cut to), "prune" (a = len(path)-1, b = 1 for the first leaf's orbits and 2 for the current best's, s = {vertex}), "ind" (a = len(path)-1, b = 1 if the step was rejected as worse, s = {vertex}), "close" (a = len(path)-1).
+var VerifCanonTracer func(ev string, a, b int, s, t []int)
+
+func verifCanon(ev string, a, b int, s, t []int) {
+	if VerifCanonTracer != nil {
+		VerifCanonTracer(ev, a, b, s, t)
+	}
+}
+
+func verifCanonVertex(ev string, a, b int, v int) {
+	if VerifCanonTracer != nil {
+		VerifCanonTracer(ev, a, b, []int{v}, nil)
+	}
+}
